@@ -124,6 +124,27 @@ pub enum BlockSpec {
     ToTextU8 { n: u8 },
     ToTextF32 { n: u8 },
     FftStream { size: u8 },
+    // sources and sinks (C09 / C16)
+    VectorSourceU8 { len: u32, repeat: u8 },
+    ConstantSourceF32 { val: f32 },
+    SignalSourceF32,
+    SignalSourceC32,
+    NullSinkU8,
+    VectorSinkU8 { max: u32 },
+}
+
+/// Sources and sinks: driven like any block, but without the chunking twin.
+pub fn source_sink_strategy() -> BoxedStrategy<BlockSpec> {
+    use BlockSpec::*;
+    prop_oneof![
+        2 => (prop_oneof![0u32..4, 0u32..3000, 0u32..14000], prop_oneof![0u8..4, Just(255u8)]).prop_map(|(len, repeat)| VectorSourceU8 { len, repeat }),
+        1 => fval().prop_map(|val| ConstantSourceF32 { val }),
+        1 => Just(SignalSourceF32),
+        1 => Just(SignalSourceC32),
+        1 => Just(NullSinkU8),
+        2 => prop_oneof![0u32..4, 0u32..20000].prop_map(|max| VectorSinkU8 { max }),
+    ]
+    .boxed()
 }
 
 fn fin(x: f32) -> f32 {
@@ -254,7 +275,19 @@ impl BlockSpec {
             VecToStreamU8 => "VecToStream",
             ToTextU8 { .. } | ToTextF32 { .. } => "ToText",
             FftStream { .. } => "FftStream",
+            VectorSourceU8 { .. } => "VectorSource",
+            ConstantSourceF32 { .. } => "ConstantSource",
+            SignalSourceF32 => "SignalSourceFloat",
+            SignalSourceC32 => "SignalSourceComplex",
+            NullSinkU8 => "NullSink",
+            VectorSinkU8 { .. } => "VectorSink",
         }
+    }
+
+    /// Sources that never end: the driver stops after a fixed number of calls.
+    pub fn is_infinite_source(&self) -> bool {
+        use BlockSpec::*;
+        matches!(self, ConstantSourceF32 { .. } | SignalSourceF32 | SignalSourceC32 | VectorSourceU8 { repeat: 255, .. })
     }
 
     /// Number of contiguous samples (per port, max) the block needs in one window.
@@ -356,6 +389,8 @@ impl BlockSpec {
             VecToStreamU8 => vec![D::PU8(gen_pkts_u8(&g[0], 300, 30))],
             ToTextU8 { n } => (0..*n as usize).map(|i| D::U8(gen_u8(&Gen { len: g[i].len.min(600), ..g[i] }, BDom::Bytes))).collect(),
             ToTextF32 { n } => (0..*n as usize).map(|i| D::F32(gen_f32(&Gen { len: g[i].len.min(300), ..g[i] }, FDom::Any))).collect(),
+            VectorSourceU8 { .. } | ConstantSourceF32 { .. } | SignalSourceF32 | SignalSourceC32 => vec![],
+            NullSinkU8 | VectorSinkU8 { .. } => vec![D::U8(gen_u8(&g[0], BDom::Bytes))],
         }
     }
 
@@ -549,10 +584,47 @@ impl BlockSpec {
                 Built { name: "ToText".into(), block: Box::new(b), ins, outs: vec![Box::new(SOut::new(o))] }
             }
             FftStream { size } => one!(C32, |r| rustradio::blocks::FftStream::new(r, 1usize << size)),
+            VectorSourceU8 { len, repeat } => {
+                sss(out_size);
+                let data = vector_source_data(len);
+                let rep = if repeat == 255 { rustradio::Repeat::infinite() } else { rustradio::Repeat::finite(repeat as u64) };
+                let (b, o) = VectorSourceBuilder::new(data).repeat(rep).build();
+                Built { name: "VectorSource".into(), block: Box::new(b), ins: vec![], outs: vec![Box::new(SOut::new(o))] }
+            }
+            ConstantSourceF32 { val } => {
+                sss(out_size);
+                let (b, o) = ConstantSource::new(val);
+                Built { name: "ConstantSource".into(), block: Box::new(b), ins: vec![], outs: vec![Box::new(SOut::new(o))] }
+            }
+            SignalSourceF32 => {
+                sss(out_size);
+                let (b, o) = SignalSourceFloat::new(48000.0, 1200.0, 0.5);
+                Built { name: "SignalSourceFloat".into(), block: Box::new(b), ins: vec![], outs: vec![Box::new(SOut::new(o))] }
+            }
+            SignalSourceC32 => {
+                sss(out_size);
+                let (b, o) = SignalSourceComplex::new(48000.0, 1200.0, 0.5);
+                Built { name: "SignalSourceComplex".into(), block: Box::new(b), ins: vec![], outs: vec![Box::new(SOut::new(o))] }
+            }
+            NullSinkU8 => {
+                let (p, r) = sin!(U8);
+                let b = NullSink::new(r);
+                Built { name: "NullSink".into(), block: Box::new(b), ins: vec![p], outs: vec![] }
+            }
+            VectorSinkU8 { max } => {
+                let (p, r) = sin!(U8);
+                let b = VectorSink::new(r, max as usize);
+                Built { name: "VectorSink".into(), block: Box::new(b), ins: vec![p], outs: vec![] }
+            }
         };
         sss(None);
         built
     }
+}
+
+/// Data of the catalogue's VectorSource: a counter, so that position is visible in the value.
+pub fn vector_source_data(len: u32) -> Vec<u8> {
+    (0..len).map(|i| (i % 251) as u8).collect()
 }
 
 /// Bytes per sample on the block's widest sample port (for stream sizing).
@@ -562,7 +634,9 @@ pub fn widest_elem(spec: &BlockSpec) -> usize {
         AddConstC32 { .. } | MulConstC32 { .. } | ComplexToMag2 | QuadDemod { .. } | FastFm | IirC32 { .. } | FirC32 { .. }
         | FftFilter { .. } | FftStream { .. } | FloatToComplex | Hilbert { .. } | RtlSdrDecode | FftFilterFloat { .. } => 8,
         XorConstU8 { .. } | XorU8 | Nrzi | Descrambler { .. } | Cac { .. } | CacTag { .. } | TeeU8 | SkipU8 { .. } | DelayU8 { .. }
-        | ResampU8 { .. } | Hdlc { .. } | Il2p | StreamToPduU8 { .. } | VecToStreamU8 | ToTextU8 { .. } => 1,
+        | ResampU8 { .. } | Hdlc { .. } | Il2p | StreamToPduU8 { .. } | VecToStreamU8 | ToTextU8 { .. }
+        | VectorSourceU8 { .. } | NullSinkU8 | VectorSinkU8 { .. } => 1,
+        SignalSourceC32 => 8,
         _ => 4,
     }
 }
